@@ -332,7 +332,10 @@ def units(tier):
             ('pointer_field_null_or_inside_the_structs_sandbox', '__CPROVER_ensures((uintptr_t)$ret.p.data == 0 || V_IN(%s, (uintptr_t)$ret.p.data))' % W),
             ('frame', '__CPROVER_assigns()')]
         sinsts.append(it)
-    return [Unit('C03_ptr_invariant', insts), Unit('C03_struct_fields', sinsts, includes=('rlbox.hpp', 'vsbx.hpp', 'vstructs.hpp'))]
+    # every 'or the operation aborts' clause rests on the body of detail::dynamic_check (a contract leaf in the instances above):
+    # it is verified here in the default and in the NDEBUG build configuration (contract of C06)
+    from . import C06
+    return ([Unit('C03_ptr_invariant', insts), Unit('C03_struct_fields', sinsts, includes=('rlbox.hpp', 'vsbx.hpp', 'vstructs.hpp'))]) + C06.dynamic_check_units(tier, PROP, 'c03')
 
 
 ASSUMPTIONS = [
